@@ -86,6 +86,24 @@ CHECKS = {
              'every behaviour replayed in several written orders and syntaxes.',
         note='ASCII model of case mapping and URL quoting; numeric values via their str() form.',
         ref='DESIGN.md section 4 C15'),
+    'C13': dict(engine='DTSort',
+        technique='TLA+ sort machine (DTSort) checked by TLC; behaviours replayed with seven key types; recorded orders '
+                  'validated by TLC against the clauses (ObsSort)',
+        text='DTSort models decorate / stable insertion / reverse with the comparators of the function and the plain path; '
+             'TLC checks Permutation, Ordered, Stable, exact reverse and input-kept over all small lists x specs; every '
+             'behaviour is replayed (str, int, float, bool, date, Decimal, callable keys; objects and mappings; sort= and '
+             'sort_expr=; batched) and every departure plus a sample is validated by TLC on the recorded order.',
+        note='Mutual order of elements whose deciding key is None/missing on both sides is unspecified; under /desc missing '
+             'keys come last.',
+        ref='DESIGN.md section 4 C13'),
+    'C16': dict(engine='DTStats',
+        technique='TLA+ model of the statistics loop (DTStats) checked by TLC against the definitions; statistics recorded '
+                  'from the real code validated by TLC in exact integer arithmetic (ObsStats)',
+        text='Data are integers of a unit, realised as int, float, quarters and 0.5+k*2^-15; TLC checks the loop against the '
+             'definitions and evaluates every clause (count, total, min, max, mean, both variances, sd^2, median, '
+             'non-numeric) on every recorded observation.',
+        note='Binary fractions only (exact); tolerance 1/1000 unit; mixed number/string data undefined.',
+        ref='DESIGN.md section 4 C16'),
 }
 
 REASON_PENDING = 'check not built yet in this round (planned, see DESIGN.md section 4)'
